@@ -741,7 +741,11 @@ static int write_loop_start(cif_loop_tp *loop, void *context) {
                             result = cif_validate_cif11_characters(*next_name, NULL);
                         }
                         if (result == CIF_TRAVERSE_CONTINUE) {
-                            if (u_fprintf(CONTEXT_UFILE(context), " %S\n", *next_name) < 4) {
+                            /* names of the maximum length leave no room for the customary indentation */
+                            const char *name_format = (u_strHasMoreChar32Than(*next_name, -1, LINE_LENGTH(context) - 1)
+                                    ? "%S\n" : " %S\n");
+
+                            if (u_fprintf(CONTEXT_UFILE(context), name_format, *next_name) < 3) {
                                 result = CIF_ERROR;
                             }
                             SET_LAST_COLUMN(context, 0);
